@@ -9,7 +9,7 @@
 (***************************************************************************************)
 EXTENDS Integers, Sequences, FiniteSets, TLC, Json
 
-CONSTANT Dev    \* "none" | "pow_exponent_truncated" | "mul_any_operands" | "digitize_strict" | "lpnorm_ignores_layout"
+CONSTANT Dev    \* "none" | "pow_exponent_truncated" | "mul_any_operands" | "digitize_strict" | "lpnorm_ignores_layout" | "mean_on_integers"
 
 \* ---------- reductions ---------------------------------------------------------------
 XU == <<<<0, 1, 4>>, <<9, 4, 1>>>>            \* unsigned perfect squares (rational powers stay integral)
@@ -77,6 +77,16 @@ LLowered(c) == IF LFuses(c) THEN [i \in 1..3 |-> [j \in 1..3 |-> <<X3[i][j], Nor
                ELSE LMeaning(c)
 RatEq(a, b) == a[1] * b[2] = b[1] * a[2]
 
+\* ---------- (a + b) / k  -> Mean(a, b) (plugins/jax/lax/div.py) --------------------------------------------
+\* lax.div on integers truncates toward zero; ONNX Mean is the exact average and exists for floats only.
+\* Results as rationals <<num, den>>.
+HCases == {[kind |-> "halfsum", k |-> k, int |-> i] : k \in {2, 3, -2}, i \in BOOLEAN}
+TruncDiv(a, b) == LET q == (IF a < 0 THEN -a ELSE a) \div (IF b < 0 THEN -b ELSE b) IN IF (a < 0) = (b < 0) THEN q ELSE -q
+HSum(i, j) == XS[i][j] + Y[i][j]
+HMeaning(c) == [i \in 1..2 |-> [j \in 1..3 |-> IF c.int THEN <<TruncDiv(HSum(i, j), c.k), 1>> ELSE <<HSum(i, j), c.k>>]]
+HFuses(c) == c.k = 2 /\ (~c.int \/ Dev = "mean_on_integers")
+HLowered(c) == IF HFuses(c) THEN [i \in 1..2 |-> [j \in 1..3 |-> <<HSum(i, j), 2>>]] ELSE HMeaning(c)
+
 \* ---------- order semantics on ties ----------------------------------------------------
 BinSets == {<<0, 1, 3>>, <<3, 1, 0>>, <<1, 1, 2>>, <<2, 1, 1>>, <<2>>, <<0, 2, 4, 6>>, <<6, 4, 2, 0>>}
 Queries == <<0, 1, 2, 3, 4, 7, -1>>
@@ -100,13 +110,14 @@ OrderResult(c) ==
             IN <<(CHOOSE k \in 1..Len(c.bins) : c.bins[k] = best /\ \A k2 \in 1..(k - 1) : c.bins[k2] # best) - 1>>      \* FIRST occurrence
 
 VARIABLE case
-Init == case \in {c \in RCases : RLegal(c)} \cup OCases \cup LCases
+Init == case \in {c \in RCases : RLegal(c)} \cup OCases \cup LCases \cup HCases
 Next == UNCHANGED case
 Spec == Init /\ [][Next]_case
 
 \* a fusion never changes the value
 FusionSound == case.kind = "reduce" => Lowered(case) = Meaning(case)
 LpNormSound == case.kind = "lpnorm" => \A i, j \in 1..3 : RatEq(LLowered(case)[i][j], LMeaning(case)[i][j])
+MeanSound == case.kind = "halfsum" => \A i \in 1..2, j \in 1..3 : RatEq(HLowered(case)[i][j], HMeaning(case)[i][j])
 \* digitize is monotone in the query for increasing bins, antitone for decreasing ones; right = TRUE never exceeds right = FALSE
 \* for increasing bins (and never falls below it for decreasing ones); they differ exactly on ties
 DigitizeLaws == case.kind = "digitize" =>
@@ -116,6 +127,6 @@ DigitizeLaws == case.kind = "digitize" =>
     /\ \A q \in 1..Len(Queries) :
           (r[q] # other[q]) <=> (\E k \in 1..Len(case.bins) : case.bins[k] = Queries[q])
 Emit == PrintT(ToJson([c |-> case,
-                       x |-> IF case.kind = "reduce" THEN InputOf(case) ELSE IF case.kind = "lpnorm" THEN X3 ELSE <<Queries>>,
-                       want |-> IF case.kind = "reduce" THEN Meaning(case) ELSE IF case.kind = "lpnorm" THEN LMeaning(case) ELSE OrderResult(case)]))
+                       x |-> IF case.kind = "reduce" THEN InputOf(case) ELSE IF case.kind = "lpnorm" THEN X3 ELSE IF case.kind = "halfsum" THEN XS ELSE <<Queries>>,
+                       want |-> IF case.kind = "reduce" THEN Meaning(case) ELSE IF case.kind = "lpnorm" THEN LMeaning(case) ELSE IF case.kind = "halfsum" THEN HMeaning(case) ELSE OrderResult(case)]))
 =============================================================================
